@@ -198,7 +198,10 @@ func c16CacheHistory(r *Rng, g *EvGen, msgs []mocrelay.ClientMsg, cap int, queri
 // barrier waits that ran into their 5 s limit in this run
 var c16SyncTimeouts int
 
-func c16SqliteHistory(r *Rng, g *EvGen, msgs []mocrelay.ClientMsg, gen bool, n int) {
+// batching of the SQLite handler's insert worker: (events per batch, flush interval in ms)
+var c16Bulk = [][2]int{{1, 3600000}, {1, 3600000}, {3, 15}, {50, 8}, {2, 5}}
+
+func c16SqliteHistory(r *Rng, g *EvGen, msgs []mocrelay.ClientMsg, gen bool, n int, bulk [2]int) {
 	db, err := sql.Open("sqlite3", ":memory:")
 	if err != nil {
 		panic(err)
@@ -207,13 +210,16 @@ func c16SqliteHistory(r *Rng, g *EvGen, msgs []mocrelay.ClientMsg, gen bool, n i
 	defer db.Close()
 	ctx, cancel := context.WithCancel(context.Background())
 	defer cancel()
-	h, err := sqlite.NewSQLiteHandler(ctx, db, &sqlite.SQLiteHandlerOption{EventBulkInsertNum: 1, EventBulkInsertDur: time.Hour, MaxLimit: sqlite.NoLimit})
+	if bulk[0] == 0 {
+		bulk = c16Bulk[0]
+	}
+	h, err := sqlite.NewSQLiteHandler(ctx, db, &sqlite.SQLiteHandlerOption{EventBulkInsertNum: bulk[0], EventBulkInsertDur: time.Duration(bulk[1]) * time.Millisecond, MaxLimit: sqlite.NoLimit})
 	if err != nil {
 		panic(err)
 	}
 	s := startPlain(h)
 	var offered []*mocrelay.Event
-	emit(M{"op": "reset", "cap": 0})
+	emit(M{"op": "reset", "cap": 0, "bulk": []int{bulk[0], bulk[1]}})
 	// The handler stores events through an asynchronous worker (one goroutine, in arrival order, one event per
 	// batch with this option).  Before every REQ a barrier EVENT (unique regular event of a private author) is
 	// sent and the harness waits until its row is in the table: every earlier EVENT has then been processed, so
@@ -296,7 +302,7 @@ func init() {
 				if r.P(80) {
 					c16CacheHistory(r, g, nil, pick(r, []int{1, 2, 3, 5, 8, 50}), nil, true, k)
 				} else {
-					c16SqliteHistory(r, g, nil, true, k)
+					c16SqliteHistory(r, g, nil, true, k, pick(r, c16Bulk))
 				}
 				lines += k + 2
 			}
@@ -306,9 +312,10 @@ func init() {
 			var sqlMsgs []mocrelay.ClientMsg
 			cap := 0
 			var queries [][]*mocrelay.ReqFilter
+			var bulk [2]int
 			flush := func() {
 				if len(sqlMsgs) > 0 {
-					c16SqliteHistory(nil, nil, sqlMsgs, false, 0)
+					c16SqliteHistory(nil, nil, sqlMsgs, false, 0, bulk)
 				} else if len(msgs) > 0 || queries != nil {
 					c16CacheHistory(nil, nil, msgs, cap, queries, false, 0)
 				}
@@ -319,6 +326,10 @@ func init() {
 				case "reset":
 					flush()
 					cap = int(jnum(l["cap"]))
+					bulk = [2]int{}
+					if b, ok := l["bulk"].([]any); ok && len(b) == 2 {
+						bulk = [2]int{int(jnum(b[0])), int(jnum(b[1]))}
+					}
 				case "msg":
 					msgs = append(msgs, cmsgFromJ(l["msg"]))
 				case "sqlmsg":
